@@ -1,0 +1,50 @@
+//go:build verif
+
+package graph
+
+// Contracts for the deductive verifier under /verif (comment-only; build tag verif).
+
+// ---- adjacency matrix (C26): edge (i, e) is bit i*n+e of the bit set ----
+
+//@ pred wfMatrix(m Matrix) = 0 <= m.n && m.n * m.n <= 32 * len(m.set)
+
+//@ func NewMatrix
+//@   requires 0 <= n && n <= 1000000
+//@   ensures result.n == n && wfMatrix(result) && fresh(result.set)
+//@   ensures forall j in 0..32*len(result.set) :: !bit(result.set, j)
+
+//@ func Matrix.AddEdge
+//@   requires wfMatrix(m) && 0 <= i && i < m.n && 0 <= e && e < m.n
+//@   modifies m.set[0:len(m.set)]
+//@   ensures bit(m.set, i*m.n + e)
+//@   ensures forall j in 0..32*len(m.set) :: j != i*m.n + e ==> (bit(m.set, j) == old(bit(m.set, j)))
+//@   ensures forall a in 0..m.n :: forall b in 0..m.n :: (a != i || b != e) ==> (bit(m.set, a*m.n + b) == old(bit(m.set, a*m.n + b)))
+
+//@ func Matrix.HasEdge
+//@   requires wfMatrix(m) && 0 <= i && i < m.n && 0 <= e && e < m.n
+//@   ensures result == bit(m.set, i*m.n + e)
+
+// reach(s, n, a, b, k): there is a path from a to b all of whose intermediate vertices are below k
+// (the Floyd-Warshall recurrence over the adjacency bits s of an n x n matrix); reach(.., n) is the
+// transitive closure.
+//@ spec func reach(s BitSet, n int, a int, b int, k int) bool decreases k = k <= 0 ? bit(s, a*n + b) : (reach(s, n, a, b, k-1) || (reach(s, n, a, k-1, k-1) && reach(s, n, k-1, b, k-1)))
+
+// Closure: afterwards there is an edge a -> b exactly when b was reachable from a by a non-empty path.
+//@ func Matrix.Closure
+//@   requires wfMatrix(m)
+//@   modifies m.set[0:len(m.set)]
+//@   ensures forall a in 0..m.n :: forall b in 0..m.n :: bit(m.set, a*m.n + b) == old(reach(m.set, m.n, a, b, m.n))
+//@   loop 1:
+//@     invariant 0 <= i && i <= m.n
+//@     invariant forall a in 0..m.n :: forall b in 0..m.n :: bit(m.set, a*m.n + b) == old(reach(m.set, m.n, a, b, i))
+//@   loop 2:
+//@     invariant 0 <= i && i < m.n && 0 <= j && j <= m.n
+//@     invariant forall a in 0..m.n :: forall b in 0..m.n :: old(reach(m.set, m.n, a, b, i + 1)) == (old(reach(m.set, m.n, a, b, i)) || (old(reach(m.set, m.n, a, i, i)) && old(reach(m.set, m.n, i, b, i))))
+//@     invariant forall a in 0..j :: forall b in 0..m.n :: bit(m.set, a*m.n + b) == old(reach(m.set, m.n, a, b, i + 1))
+//@     invariant forall a in j..m.n :: forall b in 0..m.n :: bit(m.set, a*m.n + b) == old(reach(m.set, m.n, a, b, i))
+//@   loop 3:
+//@     invariant 0 <= i && i < m.n && 0 <= j && j < m.n && 0 <= e && e <= m.n && old(reach(m.set, m.n, j, i, i))
+//@     invariant forall a in 0..j :: forall b in 0..m.n :: bit(m.set, a*m.n + b) == old(reach(m.set, m.n, a, b, i + 1))
+//@     invariant forall a in j+1..m.n :: forall b in 0..m.n :: bit(m.set, a*m.n + b) == old(reach(m.set, m.n, a, b, i))
+//@     invariant forall b in 0..e :: bit(m.set, j*m.n + b) == old(reach(m.set, m.n, j, b, i + 1))
+//@     invariant forall b in e..m.n :: bit(m.set, j*m.n + b) == old(reach(m.set, m.n, j, b, i))
